@@ -199,6 +199,9 @@ func (s *Store) read(c cid.Cid) (io.Reader, error) {
 	hook := s.OnRead
 	s.mu.Unlock()
 	if miss {
+		if hook != nil {
+			hook(c, nth) // a failing load is a load too (scheduling point); its answer stands
+		}
 		return nil, MakeErr(k, c)
 	}
 	if hook != nil {
